@@ -1,11 +1,11 @@
 /-
 Frame of the probe back-off field `probe_wait` over all operations.  Core Lean only.
 -/
-import KcpVerif.Lemmas.KcpOps
+import KcpVerif.Lemmas.KcpLiveOps
 import KcpVerif.Lemmas.KcpLive
 
-namespace KcpVerif.Kcp
-open KcpVerif KcpVerif.Gen
+namespace KcpVerif.Live
+open KcpVerif KcpVerif.Gen KcpVerif.Kcp
 
 theorem send_pw (k : Kcp) (b : Bytes) : (send k b).k.probe_wait = k.probe_wait := by
   unfold send
@@ -119,4 +119,4 @@ theorem update_pw (P : U32 → Prop) (hfl : ∀ k full now, P k.probe_wait → P
     repeat' split
     all_goals rfl
 
-end KcpVerif.Kcp
+end KcpVerif.Live
